@@ -17,13 +17,13 @@ LOGIC = Logic(funcs={}, axioms=[], macros={}, globals={})
 CONTRACTS = [
     Contract("errors/base.py::ConductorError.printable_message", params={"omit_file_context": "bool"}, returns="str", extern=True,
              trusted_reason="message rendering (cosmetic)"),
-    Contract("errors/base.py::ConductorError.add_extra_context", params={"context_string": "str"}, returns="ConductorError", extern=True,
+    Contract("errors/base.py::ConductorError.add_extra_context", params={"context_string": "str"}, returns="ConductorError", extern=True, returns_self=True,
              modifies=["ConductorError.extra_context_set@self"], ensures=["result == self", "self.extra_context_set"],
              trusted_reason="setter returning self"),
-    Contract("errors/base.py::ConductorError.add_file_context", params={"file_path": "any", "line_number": "any"}, returns="ConductorError", extern=True,
+    Contract("errors/base.py::ConductorError.add_file_context", params={"file_path": "any", "line_number": "any"}, returns="ConductorError", extern=True, returns_self=True,
              modifies=["ConductorError.file_context_set@self"], ensures=["result == self", "self.file_context_set"],
              trusted_reason="setter returning self"),
-    Contract("errors/base.py::ConductorError.add_file_context_if_missing", params={"file_path": "any", "line_number": "any"}, returns="ConductorError", extern=True,
+    Contract("errors/base.py::ConductorError.add_file_context_if_missing", params={"file_path": "any", "line_number": "any"}, returns="ConductorError", extern=True, returns_self=True,
              modifies=["ConductorError.file_context_set@self"], ensures=["result == self", "self.file_context_set"],
              trusted_reason="setter returning self"),
     Contract("ext::time.time", returns="float", trusted_reason="the clock is an arbitrary value (may repeat, may go backwards)"),
